@@ -7,6 +7,7 @@ pub mod c07;
 pub mod c08;
 pub mod c09;
 pub mod c10;
+pub mod c11;
 pub mod c12;
 pub mod c13;
 pub mod c14;
@@ -26,6 +27,7 @@ pub fn run(prop: &str, opts: &Opts) -> Vec<Report> {
         "C08" => c08::run(opts),
         "C09" => c09::run(opts),
         "C10" => c10::run(opts),
+        "C11" => c11::run(opts),
         "C12" => c12::run(opts),
         "C13" => c13::run(opts),
         "C14" => c14::run(opts),
@@ -46,6 +48,7 @@ pub fn replay(prop: &str, case: &Value) -> ReplayResult {
         "C08" => c08::replay(case),
         "C09" => c09::replay(case),
         "C10" => c10::replay(case),
+        "C11" => c11::replay(case),
         "C12" => c12::replay(case),
         "C13" => c13::replay(case),
         "C14" => c14::replay(case),
